@@ -139,6 +139,68 @@ def strategies(prog, thorough):
   return out
 
 
+def sliced_part(chk, thorough):
+  """A sliced aggregate built three ways (one builder chain, a chain of named stages, two same-named transforms fused
+  by chain()), with and without threads and shards: the same result mapping, slices included."""
+  from ml_metrics._src.chainables import io, transform
+
+  def batches(n):
+    return [{'a': [i % 2, (i + 1) % 3 % 2], 'b': [10 * i, 10 * i + 1]} for i in range(n)]
+
+  def build(form, n, threads):
+    kw = dict(num_threads=threads) if threads else {}
+    src = io.SequenceDataSource(batches(n))
+    if form == 'builder':
+      return (transform.TreeTransform.new(name='p', **kw).data_source(src).select(('a', 'b'))
+              .aggregate(fn=lib.CollectRows(), input_keys='b', output_keys='o').add_slice('a'))
+    first = transform.TreeTransform.new(name='p' if form == 'fused-by-chain' else 's1', **kw).data_source(src).select(('a', 'b'))
+    second = (transform.TreeTransform.new(name='p' if form == 'fused-by-chain' else 's2')
+              .aggregate(fn=lib.CollectRows(), input_keys='b', output_keys='o').add_slice('a'))
+    return first.chain(second)
+
+  def result_of(p, shards):
+    if shards == 1:
+      it = p.make().iterate()
+      for _ in it:
+        pass
+      res = it.agg_result
+    else:
+      states = []
+      for i in range(shards):
+        it = p.make(shard=io.ShardConfig(shard_index=i, num_shards=shards)).iterate()
+        for _ in it:
+          pass
+        states.append(it.agg_state)
+      runner = p.make()
+      res = runner.get_result(runner.merge_states(states, strict_states_cnt=shards))
+    out = {}
+    for k, v in dict(res or {}).items():
+      key = (k.metrics, tuple(k.slice.features), tuple(int(x) for x in k.slice.values)) if isinstance(k, transform.MetricKey) else (k, (), ())
+      out[repr(key)] = sorted(int(x) for x in v)
+    return out
+
+  for n in (0, 1, 3, 4):
+    ref = result_of(build('builder', n, 0), 1)
+    for form in ('builder', 'chained', 'fused-by-chain'):
+      for threads in (0, 2):
+        for shards in ((1, 2) if form != 'chained' else (1,)):       # make(shard=...) needs the source in every named stage
+          if form == 'builder' and threads == 0 and shards == 1:
+            continue
+          cfg = f'sliced aggregate, {form}, n={n} batches, num_threads={threads}, shards={shards}'
+          ctx = dict(kind='exec-strategy-sliced', form=form, n=n, num_threads=threads, shards=shards)
+          try:
+            status, got = dist.run_with_deadline(lambda: result_of(build(form, n, threads), shards), 30)
+          except Exception as e:  # pylint: disable=broad-exception-caught
+            status, got = 'raised', e
+          chk.replayed()
+          if status != 'ok':
+            chk.violation(f'sliced:{status}:{form}', f'[{cfg}] {got!r}', ctx)
+          elif got != ref:
+            missing = sorted(set(ref) - set(got))
+            what = 'slices-dropped' if missing else 'values'
+            chk.violation(f'sliced:{what}:{form}', f'[{cfg}] {got} != builder form {ref}', ctx)
+
+
 def body(chk):
   thorough = chk.tier == 'thorough'
   # 1. design level
@@ -208,6 +270,7 @@ def body(chk):
               chk.violation(f'aggregate:{strat}{":threads" if has_thr else ""}:{sig_src}', f'[{cfg}] aggregate {agg}, sequential run {ref}', ctx)
               break
   chk.count('strategy_runs', n_runs)
+  sliced_part(chk, thorough)
   chk.add_samples([dict(program='mapfilter', source='sequence', n=5, strategy='shards=3 threads=2')])
   chk.assumptions += ['threaded strategies run on real threads (schedules sampled by repetition); arrival orders are enumerated at the design level only',
                       'the aggregate collects the rows it absorbs, compared as a multiset',
